@@ -37,12 +37,26 @@ func extractValidationConstraints(field *protogen.Field, schema *base.Schema) {
 	switch field.Desc.Kind() {
 	case protoreflect.StringKind:
 		applyStringConstraints(fieldConstraints, schema)
-	case protoreflect.Int32Kind, protoreflect.Sint32Kind, protoreflect.Sfixed32Kind,
-		protoreflect.Uint32Kind, protoreflect.Fixed32Kind:
+	case protoreflect.Int32Kind:
 		applyInt32Constraints(fieldConstraints, schema)
-	case protoreflect.Int64Kind, protoreflect.Sint64Kind, protoreflect.Sfixed64Kind,
-		protoreflect.Uint64Kind, protoreflect.Fixed64Kind:
+	case protoreflect.Sint32Kind:
+		applySint32Constraints(fieldConstraints, schema)
+	case protoreflect.Sfixed32Kind:
+		applySfixed32Constraints(fieldConstraints, schema)
+	case protoreflect.Uint32Kind:
+		applyUint32Constraints(fieldConstraints, schema)
+	case protoreflect.Fixed32Kind:
+		applyFixed32Constraints(fieldConstraints, schema)
+	case protoreflect.Int64Kind:
 		applyInt64Constraints(fieldConstraints, schema)
+	case protoreflect.Sint64Kind:
+		applySint64Constraints(fieldConstraints, schema)
+	case protoreflect.Sfixed64Kind:
+		applySfixed64Constraints(fieldConstraints, schema)
+	case protoreflect.Uint64Kind:
+		applyUint64Constraints(fieldConstraints, schema)
+	case protoreflect.Fixed64Kind:
+		applyFixed64Constraints(fieldConstraints, schema)
 	case protoreflect.FloatKind:
 		applyFloatConstraints(fieldConstraints, schema)
 	case protoreflect.DoubleKind:
@@ -237,6 +251,141 @@ func applyInt64Constraints(constraints *validate.FieldRules, schema *base.Schema
 			})
 		}
 	}
+}
+
+// integerRules is the part of the integer rule messages buf.validate defines per protobuf kind
+// (SInt32Rules, UInt32Rules, Fixed64Rules, ...) that maps onto JSON Schema keywords. protovalidate
+// only accepts the rule group that matches the field's kind, so every kind reads its own group.
+type integerRules[T int32 | int64 | uint32 | uint64] interface {
+	HasGte() bool
+	GetGte() T
+	HasGt() bool
+	GetGt() T
+	HasLte() bool
+	GetLte() T
+	HasLt() bool
+	GetLt() T
+	HasConst() bool
+	GetConst() T
+	GetIn() []T
+}
+
+// applyIntegerRules applies the rules of one integer rule group to the schema.
+func applyIntegerRules[T int32 | int64 | uint32 | uint64](rules integerRules[T], schema *base.Schema) {
+	// Greater than or equal (minimum)
+	if rules.HasGte() {
+		minValue := float64(rules.GetGte())
+		schema.Minimum = &minValue
+	}
+
+	// Greater than (exclusive minimum)
+	if rules.HasGt() {
+		minValue := float64(rules.GetGt())
+		schema.ExclusiveMinimum = &base.DynamicValue[bool, float64]{N: 1, B: minValue}
+	}
+
+	// Less than or equal (maximum)
+	if rules.HasLte() {
+		maxValue := float64(rules.GetLte())
+		schema.Maximum = &maxValue
+	}
+
+	// Less than (exclusive maximum)
+	if rules.HasLt() {
+		maxValue := float64(rules.GetLt())
+		schema.ExclusiveMaximum = &base.DynamicValue[bool, float64]{N: 1, B: maxValue}
+	}
+
+	// Const value
+	if rules.HasConst() {
+		schema.Const = &yaml.Node{
+			Kind:  yaml.ScalarNode,
+			Value: fmt.Sprint(rules.GetConst()),
+		}
+	}
+
+	// Enum values (in constraint)
+	if len(rules.GetIn()) > 0 {
+		schema.Enum = make([]*yaml.Node, 0, len(rules.GetIn()))
+		for _, value := range rules.GetIn() {
+			schema.Enum = append(schema.Enum, &yaml.Node{
+				Kind:  yaml.ScalarNode,
+				Value: fmt.Sprint(value),
+			})
+		}
+	}
+}
+
+// applySint32Constraints applies sint32 validation constraints to the schema.
+func applySint32Constraints(constraints *validate.FieldRules, schema *base.Schema) {
+	sint32Constraints := constraints.GetSint32()
+	if sint32Constraints == nil {
+		return
+	}
+	applyIntegerRules[int32](sint32Constraints, schema)
+}
+
+// applySfixed32Constraints applies sfixed32 validation constraints to the schema.
+func applySfixed32Constraints(constraints *validate.FieldRules, schema *base.Schema) {
+	sfixed32Constraints := constraints.GetSfixed32()
+	if sfixed32Constraints == nil {
+		return
+	}
+	applyIntegerRules[int32](sfixed32Constraints, schema)
+}
+
+// applyUint32Constraints applies uint32 validation constraints to the schema.
+func applyUint32Constraints(constraints *validate.FieldRules, schema *base.Schema) {
+	uint32Constraints := constraints.GetUint32()
+	if uint32Constraints == nil {
+		return
+	}
+	applyIntegerRules[uint32](uint32Constraints, schema)
+}
+
+// applyFixed32Constraints applies fixed32 validation constraints to the schema.
+func applyFixed32Constraints(constraints *validate.FieldRules, schema *base.Schema) {
+	fixed32Constraints := constraints.GetFixed32()
+	if fixed32Constraints == nil {
+		return
+	}
+	applyIntegerRules[uint32](fixed32Constraints, schema)
+}
+
+// applySint64Constraints applies sint64 validation constraints to the schema.
+func applySint64Constraints(constraints *validate.FieldRules, schema *base.Schema) {
+	sint64Constraints := constraints.GetSint64()
+	if sint64Constraints == nil {
+		return
+	}
+	applyIntegerRules[int64](sint64Constraints, schema)
+}
+
+// applySfixed64Constraints applies sfixed64 validation constraints to the schema.
+func applySfixed64Constraints(constraints *validate.FieldRules, schema *base.Schema) {
+	sfixed64Constraints := constraints.GetSfixed64()
+	if sfixed64Constraints == nil {
+		return
+	}
+	applyIntegerRules[int64](sfixed64Constraints, schema)
+}
+
+// applyUint64Constraints applies uint64 validation constraints to the schema.
+func applyUint64Constraints(constraints *validate.FieldRules, schema *base.Schema) {
+	uint64Constraints := constraints.GetUint64()
+	if uint64Constraints == nil {
+		return
+	}
+	applyIntegerRules[uint64](uint64Constraints, schema)
+}
+
+// applyFixed64Constraints applies fixed64 validation constraints to the schema.
+func applyFixed64Constraints(constraints *validate.FieldRules, schema *base.Schema) {
+	fixed64Constraints := constraints.GetFixed64()
+	if fixed64Constraints == nil {
+		return
+	}
+	applyIntegerRules[uint64](fixed64Constraints, schema)
 }
 
 // applyFloatConstraints applies float validation constraints to the schema.
